@@ -251,6 +251,9 @@ func genParams(r rng, sc *Scenario, op *Op) {
 	case "SetFloat64":
 		if r.chance(0.06) {
 			op.FB = math.Float64bits(math.NaN())
+		} else if r.chance(0.12) {
+			// integers in [2^52, 2^53): the one range that needs no power-of-two scaling
+			op.FB = math.Float64bits(float64(uint64(1)<<52 + r.Uint64()%(uint64(1)<<52)))
 		} else if r.chance(0.5) {
 			op.FB = math.Float64bits(f64Edges[r.intn(len(f64Edges))])
 		} else {
